@@ -4,7 +4,7 @@
 //! Environment:
 //!   GAIV_SHIM_LOG      file; one JSON line per call {"n":k,"proxied":bool,"argv":[...],"cwd":"..."}
 //!   GAIV_SHIM_COUNTER  file holding the number of internal calls seen so far
-//!   GAIV_SHIM_FAULT    "<k>:<mode>" with mode in fail|garbage|kill ; applies to internal call number k (1-based)
+//!   GAIV_SHIM_FAULT    "<k>:<mode>" with mode in fail|fail128|fail1|garbage|kill ; applies to internal call number k (1-based)
 //!   GAIV_SHIM_FIRED    file created when the fault fired
 
 use std::ffi::OsString;
@@ -64,6 +64,14 @@ fn main() {
                         "fail" => {
                             eprintln!("fatal: injected failure at internal git call {n}");
                             std::process::exit(97);
+                        }
+                        // the two statuses git itself fails with: 128 (fatal) and 1 (e.g. "no such ref")
+                        "fail128" => {
+                            eprintln!("fatal: injected failure at internal git call {n}");
+                            std::process::exit(128);
+                        }
+                        "fail1" => {
+                            std::process::exit(1);
                         }
                         "garbage" => {
                             std::process::exit(0);
